@@ -139,6 +139,9 @@ def run(ctx):
                   if (m[0] in "RW" and ("," in _kv(m).get("vs", "") or "," in _kv(m).get("ch", "") or _kv(o).get("res") != "ok"))
                   or (m[0] == "H" and ";" in m)
                   or (m[0] == "S" and "," in m)}
+    ctx.dependency("C09", "failures are surfaced through statuses, which reach the API through the leader-aware group "
+                          "updater (a stale older write must not land after the newer one)")
+
     ctx.finish({
         "evaluations": len(lines),
         "distinct_nontrivial": len(nontrivial),
